@@ -97,6 +97,127 @@ func runLift40(a *args) {
 			}
 		}
 	}
+	// (n) neighbour sequences: score o, then every single-metric neighbour of o right after it, then o again.
+	// A result that depends on what was scored just before (a memo keyed too weakly) shows exactly on neighbours.
+	score := func(o Obj) (float64, bool) {
+		var g float64
+		p, _ := safely(func() { g = o.Score("score") })
+		return g, !p
+	}
+	neighbours := func(o Obj) {
+		base, ok := score(o)
+		if !ok {
+			return
+		}
+		for _, m := range metrics {
+			for _, x := range tb.allvals[m] {
+				o2 := o.Clone()
+				mustSet(o2, m, x)
+				switch prop {
+				case "C04":
+					check(o2, "neighbour scored right after its neighbour")
+				case "C14":
+					g2, ok2 := score(o2)
+					again, ok3 := score(o)
+					col.count("scores repeated after scoring a neighbour", 1)
+					if ok2 && ok3 && again != base {
+						col.violate(Violation{Property: prop, Kind: "Score depends on what was scored before", Version: "4.0",
+							Input: map[string]interface{}{"vector": o.Vector(), "scored_in_between": o2.Vector()}, Expected: fmtF(base), Observed: fmtF(again)})
+					}
+					// and the neighbour itself, scored fresh after an unrelated object, gives the same value
+					far := randomObj()
+					score(far)
+					g3, ok4 := score(o2)
+					if ok2 && ok4 && g3 != g2 {
+						col.violate(Violation{Property: prop, Kind: "Score depends on what was scored before", Version: "4.0",
+							Input: map[string]interface{}{"vector": o2.Vector(), "scored_just_before_first_time": o.Vector(), "scored_just_before_second_time": far.Vector()}, Expected: fmtF(g3), Observed: fmtF(g2)})
+					}
+				case "C12":
+					// monotonicity with a history: the neighbour was scored just before the pair is compared
+					g2, ok2 := score(o2)
+					if !ok2 {
+						continue
+					}
+					c2 := tb.classOf(o2)
+					for _, sm := range v4metrics {
+						r := tb.rank[sm][c2[sm]]
+						if r == 0 {
+							continue
+						}
+						up := ""
+						for val, rr := range tb.rank[sm] {
+							if rr == r-1 {
+								up = val
+							}
+						}
+						if up == "" {
+							continue
+						}
+						// raise the EFFECTIVE value one step: through the Modified metric when it is defined
+						o3 := o2.Clone()
+						mm := tb.modOf[sm]
+						if cur, _ := o3.Get(mm); mm != "" && cur != "X" {
+							if up == "S" || containsStr(tb.allvals[mm], up) {
+								mustSet(o3, mm, up)
+							} else {
+								continue
+							}
+						} else if up == "S" {
+							mustSet(o3, mm, "S")
+						} else {
+							mustSet(o3, sm, up)
+						}
+						g3, ok3 := score(o3)
+						col.count("neighbour pairs compared after a history", 1)
+						if ok3 && g3 < g2 {
+							col.violate(Violation{Property: prop, Kind: "more severe value lowers the score", Version: "4.0",
+								Input:    map[string]interface{}{"vector": o2.Vector(), "metric": sm, "to": up, "more_severe_vector": o3.Vector(), "scored_before": o.Vector()},
+								Expected: ">= " + fmtF(g2), Observed: fmtF(g3)})
+						}
+						score(o2)
+					}
+				}
+			}
+		}
+	}
+	if prop == "C04" || prop == "C14" || prop == "C12" {
+		nn := K / 4
+		if nn < 6 {
+			nn = 6
+		}
+		for k := 0; k < nn; k++ {
+			neighbours(randomObj())
+		}
+		if prop != "C04" {
+			col.write(a.Out)
+			return
+		}
+	}
+	// (p) every pair of (Modified metric, value) x (Modified metric, value), base values random
+	if prop == "C10" || prop == "C04" {
+		var mods []string
+		for _, mm := range tb.modOf {
+			if mm != "" {
+				mods = append(mods, mm)
+			}
+		}
+		sort.Strings(mods)
+		for i, m1 := range mods {
+			for _, m2 := range mods[i+1:] {
+				for _, x1 := range tb.allvals[m1][1:] {
+					for _, x2 := range tb.allvals[m2][1:] {
+						o := randomObj()
+						for _, mm := range mods {
+							mustSet(o, mm, "X")
+						}
+						mustSet(o, m1, x1)
+						mustSet(o, m2, x2)
+						check(o, "pair of Modified metrics")
+					}
+				}
+			}
+		}
+	}
 	// (a) every (base, modified) pair of every overridable metric, in K random contexts
 	for m, mm := range tb.modOf {
 		if mm == "" {
@@ -175,3 +296,12 @@ func runLift40(a *args) {
 }
 
 func init() { modes["lift40"] = runLift40 }
+
+func containsStr(xs []string, x string) bool {
+	for _, y := range xs {
+		if y == x {
+			return true
+		}
+	}
+	return false
+}
